@@ -220,9 +220,22 @@ def check_ls(cfg, w, rep, lf):
     emit_t = stages[sig.index("filter_map")][1][2][1]
     cb = prog.by_path.get(emit_t[1]) if emit_t[0] == "agg" else None
     if cb is None:
+        # a private function of the record type passed by name (`.filter_map(Record::into_metadata)`) is judged like a closure
+        fnp = _fn_item(prog, pb, stages[sig.index("filter_map")][1], emit_t)
+        if fnp is not None:
+            cb = prog.fns[fnp].body
+    if cb is None:
         rep.violation("d-emit:%s" % key, "emit stage of `%s` is not a closure" % short(lf.path), loc=pb.loc(), config=cfg, rule="d-emit")
     else:
         check_emit(cfg, w, rep, lf, cb)
+
+
+def _fn_item(prog, pb, stage_term, t):
+    """Path of the crate function that the symbolic term `t` (an argument of a pipeline stage) names, if any."""
+    for x in (t[1] if len(t) > 1 else None, t[-1] if t else None):
+        if isinstance(x, str) and x in prog.fns and not prog.fns[x].outer.j.get("is_async"):
+            return x
+    return None
 
 
 def _labeler(prog, cl, rec_types):
